@@ -113,7 +113,7 @@ def responsePduSizeRaw : Response → Nat
   | .writeSingleRegister .. => 5
   | .readInputRegisters ws | .readHoldingRegisters ws | .readWriteMultipleRegisters ws =>
     2 + ws.length * 2
-  | .reportServerId _ _ data => 3 + data.length
+  | .reportServerId _ _ data => 4 + data.length
   | .maskWriteRegister .. => 7
   | .custom _ data => 1 + data.length
 
